@@ -575,6 +575,17 @@ impl<'s> Runner<'s> {
         }
     }
 
+    /// The bytes handed to the VM for pool program `pid`: its own buffer, or - for a view - the first
+    /// bytes of its parent's buffer (same start address as the parent, other length).
+    fn prog_slice(&self, pid: usize) -> &'static [u8] {
+        let len = self.arena.progs[pid].len();
+        let base = match self.sc.progs[pid].view_of {
+            Some(parent) if parent < self.arena.progs.len() && self.arena.progs[parent].len() >= len && self.arena.progs[parent][..len] == self.arena.progs[pid][..] => parent,
+            _ => pid,
+        };
+        unsafe { std::slice::from_raw_parts(self.arena.progs[base].as_ptr(), len) }
+    }
+
     fn c10(&self, class: String, at: usize, detail: String) -> Stop {
         if self.mode == Prop::C10 {
             Stop::Violation(Violation { prop: Prop::C10, class, at_op: at, detail })
@@ -644,7 +655,7 @@ impl<'s> Runner<'s> {
                 return Err(Stop::Abort(format!("fresh VM: register_helper -> {}", o.short())));
             }
         }
-        let bytes: &[u8] = unsafe { std::slice::from_raw_parts(self.arena.progs[pid].as_ptr(), self.arena.progs[pid].len()) };
+        let bytes: &[u8] = self.prog_slice(pid);
         let o = vm.set_program(bytes, offsets.0, offsets.1);
         if !o.is_ok() {
             return Err(Stop::Abort(format!("fresh VM: set_program under accept-all -> {}", o.short())));
@@ -679,7 +690,7 @@ impl<'s> Runner<'s> {
                 return Err(Stop::Abort(format!("fresh VM: set_calc -> {}", o.short())));
             }
         }
-        let bytes: &[u8] = unsafe { std::slice::from_raw_parts(self.arena.progs[pid].as_ptr(), self.arena.progs[pid].len()) };
+        let bytes: &[u8] = self.prog_slice(pid);
         let o = vm.set_program(bytes, offsets.0, offsets.1);
         guard::mark_phase(guard::PHASE_SUT);
         Ok(o)
@@ -1501,7 +1512,7 @@ impl<'s> Runner<'s> {
                 Ok(())
             }
             Op::New { pid, doff, eoff } => {
-                let bytes: Option<&[u8]> = pid.map(|p| unsafe { std::slice::from_raw_parts(self.arena.progs[p].as_ptr(), self.arena.progs[p].len()) });
+                let bytes: Option<&[u8]> = pid.map(|p| self.prog_slice(p));
                 let predicted_ok = match pid {
                     None => true,
                     Some(p) => verifier_accepts(V_DEFAULT, &self.sc.progs[*p].bytes),
@@ -1566,7 +1577,7 @@ impl<'s> Runner<'s> {
                 if !predicted_ok {
                     self.sweep(at, Some(""))?;
                 }
-                let bytes: &[u8] = unsafe { std::slice::from_raw_parts(self.arena.progs[*pid].as_ptr(), self.arena.progs[*pid].len()) };
+                let bytes: &[u8] = self.prog_slice(*pid);
                 if absurd {
                     // no buffer can be built for these offsets: an error is fine (and must change
                     // nothing); anything else - the unchanged code panics on the overflowing sum - is
